@@ -78,6 +78,13 @@ def build(r):
         return {"ValueError": ValueError, "KeyError": KeyError, "Exception": Exception}[r[1]]
     if k == "complex":
         return complex(r[1], r[2])
+    if k == "pyenum":
+        # member of a python Enum (plain, or with a str / int mixin) named r[2] with value r[3]
+        import enum
+
+        base = {"plain": (enum.Enum,), "str": (str, enum.Enum), "int": (enum.IntEnum,)}[r[1]]
+        cls = enum.Enum("PyEnum", {r[2]: r[3]}, type=base[0]) if r[1] != "plain" else enum.Enum("PyEnum", {r[2]: r[3]})
+        return cls[r[2]]
     raise AssertionError(r)
 
 
@@ -88,7 +95,7 @@ ADV_STRS = ["", " ", "0", "1", "-1", "5.0", "1e3", "0x10", "2147483648", "nan", 
 
 def gen_adversarial(c, schema, depth=0):
     k = c.weighted([(10, "int"), (10, "float"), (10, "str"), (4, "bool"), (3, "none"), (3, "bytes"), (4, "list"), (3, "tuple"),
-                    (2, "set"), (2, "gen"), (4, "dict"), (3, "decimal"), (2, "fraction"), (3, "obj"), (2, "named_obj"), (3, "exc"), (2, "exccls"), (1, "complex")])
+                    (2, "set"), (2, "gen"), (4, "dict"), (3, "decimal"), (2, "fraction"), (3, "obj"), (2, "named_obj"), (3, "exc"), (2, "exccls"), (1, "complex"), (3, "pyenum")])
     if k == "int":
         return ["int", c.choice(ADV_INTS)]
     if k == "float":
@@ -127,7 +134,20 @@ def gen_adversarial(c, schema, depth=0):
         return ["exc", c.choice(["ValueError", "KeyError", "Exception"]), c.choice(["boom", "", "é"])]
     if k == "exccls":
         return ["exccls", c.choice(["ValueError", "Exception"])]
+    if k == "pyenum":
+        return gen_pyenum(c, schema)
     return ["complex", 1, 2]
+
+
+def gen_pyenum(c, schema):
+    names = ["RED"]
+    for n, d in schema["types"].items():
+        if d["kind"] == "ENUM":
+            names += d["values"]
+    kind = c.choice(["plain", "str", "int"])
+    name = c.choice(names)
+    value = {"plain": c.choice([1, name, "x"]), "str": c.choice([name, "other"]), "int": c.choice([1, 2 ** 31])}[kind]
+    return ["pyenum", kind, name, value]
 
 
 def gen_typename(c, schema):
@@ -176,7 +196,10 @@ def gen_welltyped_nn(c, schema, t, depth, mix):
             return ["obj", [["_typename", ["str", tn]]]]
         return ["named_obj", tn]
     if k == "ENUM":
-        return ["str", c.choice(schema["types"][name]["values"])]
+        v = c.choice(schema["types"][name]["values"])
+        if c.maybe(25):
+            return ["pyenum", c.choice(["plain", "str", "int"]), v, c.choice([v, 1])]
+        return ["str", v]
     if name == "Int":
         return ["int", c.choice([0, 1, -1, INT_MAX, INT_MIN, c.int(-999, 999)])]
     if name == "Float":
@@ -206,7 +229,7 @@ def is_welltyped_top(schema, t, r):
     if k in ("OBJECT", "INTERFACE", "UNION"):
         return r[0] in ("dict", "obj", "named_obj")
     if k == "ENUM":
-        return r[0] == "str" and r[1] in schema["types"][name]["values"]
+        return (r[0] == "str" and r[1] in schema["types"][name]["values"]) or r[0] == "pyenum"
     if name == "Int":
         return r[0] == "int" and INT_MIN <= r[1] <= INT_MAX
     if name == "Float":
@@ -444,7 +467,7 @@ def case(c, stats):
         ex = Executor(schema, spec["doc"], None)
         for key, r in spec["returns"].items():
             kinds.add("ret:" + r[0])
-        ill = sum(1 for r in spec["returns"].values() if r[0] in ("bytes", "tuple", "set", "gen", "decimal", "fraction", "exc", "exccls", "complex", "named_obj") or (r[0] == "float" and r[1] in ("nan", "inf", "-inf")))
+        ill = sum(1 for r in spec["returns"].values() if r[0] in ("bytes", "tuple", "set", "gen", "decimal", "fraction", "exc", "exccls", "complex", "named_obj", "pyenum") or (r[0] == "float" and r[1] in ("nan", "inf", "-inf")))
         nontrivial = ill >= 1 and n_good >= 1
         stats.case({"schema": schema, "doc": spec["doc"], "returns": spec["returns"], "v": spec["variables"]}, nontrivial, sorted(kinds),
                    {"query": print_document(spec["doc"]).text, "returns": spec["returns"]})
